@@ -48,6 +48,10 @@ var phases = []string{
 	"init-reject",        // router rejects: no session, nothing leaked
 	"init-upstream-refused", // upstream proxy (SOCKS5 association) refused
 	"evict-unsendable",      // a session none of whose packets can be sent out (unresolvable name) is still evicted when idle
+	// a later service fails to start while the relay already carries sessions: Run itself stops what it started
+	"failed-start-queued",        // ... with bursts in flight
+	"failed-start-hook-rearm",    // ... with an uplink paused before re-arming the deadline
+	"failed-start-init-resolver", // ... with a session initialisation held in name resolution
 }
 
 type world struct {
@@ -56,6 +60,9 @@ type world struct {
 	targets []*svx.UDPTarget
 	portA   int
 	tport   int
+	// failed-start phases: the host name server F listens on, and the function that lets its resolution fail
+	failName    string
+	failRelease func()
 }
 
 var (
@@ -101,6 +108,13 @@ func startWorld(e *core.Env, ci int, s *sched, nat string, opt string) (*world, 
 	if soA.TCP {
 		nsrv++
 	}
+	if strings.HasPrefix(s.Phase, "failed-start") {
+		// server F comes last; its listen address is a host name whose resolution the harness holds, so that F's Start
+		// is still under way while sessions are set up on A, and then fails (the name does not exist)
+		w.failName = fmt.Sprintf("lcfail-%d-%d.test", ci, e.Seed)
+		w.failRelease = fakeDNS.Hold(w.failName)
+		cfg["servers"] = append(cfg["servers"].([]any), t.Server("F", "socks5", ports[3], svx.ServerOpts{TCP: true, Host: w.failName}))
+	}
 	inst, err := svx.Start(svx.JSON(cfg))
 	if err != nil {
 		return nil, err
@@ -137,7 +151,7 @@ func natFor(S, C string) (string, time.Duration) {
 
 func runLifecycle(e *core.Env) {
 	rec := e.Rec
-	rec.Rule("lifecycle: one case = (relay kind via server protocol S: NAT relay for socks5/none, session relay for SS2022; upstream protocol C; batch mode; lifecycle phase from {evict-and-restart, stop-idle, stop-established, stop-queued (bursts in flight), stop-double, stop-init-resolver (initialiser held in name resolution), stop-hook-rearm / stop-hook-swap (goroutine held at a verif hook while Stop runs), init-reject, init-upstream-refused}; sessions 1..24); after Run returns: goroutine count and socket count back to the pre-start baseline, listener port reusable, virtual time consumed by Stop < natTimeout/2; class = (S, C, batch, phase, hook reached)")
+	rec.Rule("lifecycle: one case = (relay kind via server protocol S: NAT relay for socks5/none, session relay for SS2022; upstream protocol C; batch mode; lifecycle phase from {evict-and-restart, stop-idle, stop-established, stop-queued (bursts in flight), stop-double, stop-init-resolver (initialiser held in name resolution), stop-hook-rearm / stop-hook-swap (goroutine held at a verif hook while Stop runs), init-reject, init-upstream-refused, evict-unsendable, failed-start-{queued, hook-rearm, init-resolver} (a later server, whose listen address is a held host name, fails to start while the relay carries sessions: Run stops the relay by itself, its context is not cancelled from outside)}; sessions 1..24); after Run returns: goroutine count and socket count back to the pre-start baseline, listener port reusable, virtual time consumed by Stop < natTimeout/2; class = (S, C, batch, phase, hook reached)")
 	type job struct{ s sched }
 	var jobs []job
 	// multi-user SS2022 servers: their credential store would make the service register a SIGUSR1 handler, after which
@@ -246,11 +260,35 @@ func lifecycleCase(e *core.Env, ci int, r *core.RNG, s *sched) {
 	}
 	hookReached := false
 	stopped := false
+	var afterReturn func()
 	finish := func() {
 		// ---- Stop and audit ----
-		sr := w.inst.Stop(20 * time.Second)
+		var sr svx.StopResult
+		if w.failRelease != nil {
+			// let server F's start fail: Run must stop the relay by itself and return false; the context handed to Run is
+			// NOT cancelled by the harness until Run has returned (or an hour of virtual time has passed)
+			if !svx.Poll(10*time.Second, func() bool { return fakeDNS.QueryCount(w.failName) > 0 }) {
+				rec.Inconclusive("failed-start: server F never asked for its listen address")
+			}
+			w.failRelease()
+			sr = w.inst.AwaitReturn(20 * time.Second)
+			w.inst.Cancel()
+			if !sr.Returned {
+				sr2 := w.inst.AwaitReturn(20 * time.Second)
+				sr.Returned, sr.RunOK = sr2.Returned, sr2.RunOK
+				sr.Virtual += sr2.Virtual
+			}
+			if sr.Returned && sr.RunOK {
+				violate("failed_start_reported_ok", "server F cannot listen (its host name does not resolve), yet Run returned true")
+			}
+		} else {
+			sr = w.inst.Stop(20 * time.Second)
+		}
 		stopped = true
 		verifhook.Set(nil)
+		if afterReturn != nil {
+			afterReturn() // e.g. let a withheld resolver answer go, so that the harness's own goroutines end before the audit
+		}
 		closeAll()
 		if !sr.Returned {
 			violate("stop_hung", "Run did not return within an hour of virtual time after cancellation")
@@ -353,7 +391,7 @@ func lifecycleCase(e *core.Env, ci int, r *core.RNG, s *sched) {
 			return
 		}
 		finish()
-	case "stop-queued":
+	case "stop-queued", "failed-start-queued":
 		if !newPeers(s.NSess) || !roundTrip("warm") {
 			return
 		}
@@ -370,7 +408,7 @@ func lifecycleCase(e *core.Env, ci int, r *core.RNG, s *sched) {
 		}
 		vtime.Advance(nat + time.Second) // timeouts fire right before the stop
 		finish()
-	case "stop-init-resolver":
+	case "stop-init-resolver", "failed-start-init-resolver":
 		if !newPeers(min(s.NSess, 4)) {
 			return
 		}
@@ -381,6 +419,13 @@ func lifecycleCase(e *core.Env, ci int, r *core.RNG, s *sched) {
 		}
 		// wait until the resolver is being asked (the initialiser / uplink is blocked in resolution)
 		svx.Poll(2*time.Second, func() bool { return fakeDNS.QueryCount(name) > 0 })
+		if w.failRelease != nil {
+			// Run stops the relay by itself: the held resolution has to be abandoned because the run is over (its
+			// context is cancelled), not because an answer arrives - the answer is withheld until Run has returned
+			afterReturn = release
+			finish()
+			return
+		}
 		done := make(chan struct{})
 		go func() {
 			// release the resolver a little (real time) after Stop began
@@ -390,7 +435,7 @@ func lifecycleCase(e *core.Env, ci int, r *core.RNG, s *sched) {
 		}()
 		finish()
 		<-done
-	case "stop-hook-rearm", "stop-hook-swap":
+	case "stop-hook-rearm", "stop-hook-swap", "failed-start-hook-rearm":
 		hook := "udp.uplink.beforeRearm"
 		if s.Phase == "stop-hook-swap" {
 			hook = "udp.init.beforeSwap"
